@@ -10,7 +10,7 @@ import ast, contextlib, copy, io, sys
 from pathlib import Path
 sys.path.insert(0, str(Path(__file__).resolve().parent.parent))
 from pgstat import inline as _inline
-from pgstat.model import normalise_tree, _canonical_receivers, _propagate_module_constants, record_classes
+from pgstat.model import normalise_tree, _canonical_receivers, _propagate_module_constants, _prelower_conditional_calls, record_classes
 
 CASES = r'''
 import functools
@@ -567,6 +567,94 @@ def loop_var_read_after_comprehension_must_stay(xs):
         out.append(x * 2)
     return (out, x if xs else None)
 
+def walrus_first(d, k):
+    if (v := d.get(k)) is None:
+        return "absent"
+    return v
+
+def walrus_second_operand(c, h):
+    if c is None and (c := h.get("c")) is None:
+        raise ValueError("none")
+    return c
+
+def walrus_truth(xs):
+    if n := len(xs):
+        return n * 2
+    return -1
+
+def walrus_in_else_branch(a, d):
+    if a > 3:
+        r = "big"
+    elif (m := d.get(a)) is not None:
+        r = m
+    else:
+        r = "none"
+    return r
+
+def walrus_not_leading_must_stay(a, d):
+    if a > 3 or (m := d.get(a)) is not None:
+        return "yes"
+    return "no"
+
+def match_literals(kind, n):
+    match kind:
+        case "double":
+            r = n * 2
+        case "neg" | "minus":
+            r = -n
+        case None:
+            r = 0
+        case _:
+            r = n
+    return r
+
+def match_computed_subject(xs):
+    match len(xs):
+        case 0:
+            return "empty"
+        case 1 | 2:
+            return "few"
+    return "many"
+
+def match_capture_must_stay(p):
+    match p:
+        case (a, b):
+            return a + b
+        case _:
+            return None
+
+def row_store(rows):
+    import numpy as np
+    out = np.empty((len(rows), 3), dtype=np.float32)
+    for i, r in enumerate(rows):
+        out[i] = (r[0], r[1], r[0] + r[1])
+    return out.tolist()
+
+def row_store_scalar_3d(n):
+    import numpy as np
+    out = np.zeros((n, 2, 4), dtype=np.float32)
+    for i in range(n):
+        out[i, 0] = -1
+        out[i, 1] = (i, i + 1, i + 2, i + 3)
+    return out.tolist()
+
+def row_store_on_list_must_stay(rows):
+    out = [None] * len(rows)
+    for i, r in enumerate(rows):
+        out[i] = (r[0], r[1])
+    return out
+
+def _row_of(r):
+    s = r[0] + r[1]
+    return r[0], r[1], s
+
+def conditional_private_call(rows):
+    out = []
+    for r in rows:
+        row = None if r is None else _row_of(r)
+        out.append(row)
+    return out
+
 def takes_three(a, b, c=3):
     return (a, b, c)
 
@@ -846,6 +934,12 @@ ARGS = {
     "enumerate_start": [([1, 2, 3],), ([],)], "enumerate_start_positional": [([7, 8],)], "enumerate_start_read_after_must_stay": [([7, 8],), ([],)],
     "chained_comprehension": [([[("a", 1), ("b", None)], [("c", 2)]],), ([],)], "chained_comprehension_inline": [([[("a", 1)], [], [("c", 2)]],)],
     "chained_used_twice_must_stay": [([[("a", 1)], [("c", 2)]],)], "loop_var_read_after_comprehension_must_stay": [([1, 2],), ([],)],
+    "walrus_first": [({"a": 1}, "a"), ({"a": 1}, "b")], "walrus_second_operand": [(1, {}), (None, {"c": 2}), (None, {})], "walrus_truth": [([1, 2],), ([],)],
+    "walrus_in_else_branch": [(5, {}), (1, {1: "one"}), (2, {1: "one"})], "walrus_not_leading_must_stay": [(5, {}), (1, {1: 1}), (2, {})],
+    "match_literals": [("double", 3), ("minus", 3), (None, 3), ("other", 3)], "match_computed_subject": [([],), ([1, 2],), ([1, 2, 3],)],
+    "match_capture_must_stay": [((1, 2),), (5,)],
+    "row_store": [([(1, 2), (3, 4)],), ([],)], "row_store_scalar_3d": [(2,), (0,)], "row_store_on_list_must_stay": [([(1, 2)],)],
+    "conditional_private_call": [([(1, 2), None, (3, 4)],)],
     "keys_loop": [({"b": [1, 2], "a": [3]},), ({},)], "keys_loop_keys_call": [({"b": [1, 2], "a": [3]},), ({},)],
     "keys_loop_body_stores_must_stay": [({"b": [1, 2], "a": [3]},)], "keys_loop_other_key_must_stay": [({"b": [1], "a": [3]}, "a")],
     "keys_loop_rebinds_key_must_stay": [({"b": [1], "a": [3]},)],
@@ -882,6 +976,7 @@ def main() -> int:
     tree = ast.parse(CASES)
     _canonical_receivers(tree)
     _propagate_module_constants(tree)
+    _prelower_conditional_calls(tree)
     n_inlined, log = _inline.inline_module_helpers(tree, "cases")
     dropped = _inline.drop_unreferenced_helpers([tree])
     from pgstat.model import package_signatures
